@@ -296,8 +296,14 @@ macro_rules! quaternion_complete_mod {
             {
                 // From GLM
                 let (from, to) = (from.into(), to.into());
-                let norm_u_norm_v = (from.dot(from) * to.dot(to)).sqrt();
-                let w = norm_u_norm_v + from.dot(to);
+                let (from_sqr, to_sqr) = (from.dot(from), to.dot(to));
+                let norm_u_norm_v = (from_sqr * to_sqr).sqrt();
+                // w = |from||to| + from.to, which cancels when the vectors are (nearly) opposite:
+                // rounding noise then decided the test below and could send a 180° pair through
+                // the general branch. With s = from + (|from|/|to|) to we have
+                // |s|² = 2 (|from|/|to|) w, a sum of squares that doesn't cancel.
+                let s = from + to * (norm_u_norm_v / to_sqr);
+                let w = norm_u_norm_v * (s.dot(s) / (from_sqr + from_sqr));
                 let (Vec3 { x, y, z }, w) = if w < norm_u_norm_v * T::epsilon() {
                     // If we are here, it is a 180° rotation, which we have to handle.
                     if from.x.abs() > from.z.abs() {
